@@ -23,6 +23,11 @@ def run_wl(toks):
         with contextlib.redirect_stdout(io.StringIO()):
             m = wl.WangLandauMachine(seq, d, frozen, nbins=nbins, binmin=binmin, binmax=binmax, flatchk=flatchk,
                                      flatcrit=flatcrit, convergence=float(np.exp(convln)))
+            if len(toks) > 11 and toks[11] == "second":
+                # the run under test is the SECOND run() of the same machine: it must start from g = 0, H = 0, f = e again
+                m.run()
+                for f in os.listdir(d):
+                    os.remove(os.path.join(d, f))
             real_moves.RecordingRandom.TAPE = []
             ret = m.run()
         files = {}
